@@ -192,14 +192,16 @@ Fixpoint proj (fuel : nat) (ns : list node) (p m : nat) : option nat :=
 Definition is_eff (ns : list node) (m : nat) : bool :=
   match nth_error ns m with Some x => n_eff x | None => false end.
 
-(** side-effect events of region [p], in insertion order of the effectful leaves: for each
-    effectful leaf below [p] (not across a nested function definition) the child of [p] that
-    contains it *)
-Definition events_upto (ns : list node) (p bound : nat) : list nat :=
-  flat_map (fun m => if is_eff ns m then
-                       match proj (S m) ns p m with Some c => [c] | None => [] end
-                     else []) (seq 0 bound).
-Definition events (ns : list node) (p : nat) : list nat := events_upto ns p (length ns).
+(** side-effect events of region [p] caused by the effectful leaves with index in
+    [start, start+len), in insertion order: for each such leaf below [p] (not across a nested
+    function definition) the child of [p] that contains it *)
+Definition eff_leaves (ns : list node) (start len : nat) : list nat :=
+  filter (is_eff ns) (seq start len).
+Definition event_of (ns : list node) (p m : nat) : list nat :=
+  match proj (S m) ns p m with Some c => [c] | None => [] end.
+Definition events_range (ns : list node) (p start len : nat) : list nat :=
+  flat_map (event_of ns p) (eff_leaves ns start len).
+Definition events (ns : list node) (p : nat) : list nat := events_range ns p 0 (length ns).
 
 Fixpoint mem (x : nat) (l : list nat) : bool :=
   match l with [] => false | y :: r => Nat.eqb x y || mem x r end.
@@ -246,8 +248,10 @@ Fixpoint contig_acc (closed : list nat) (cur : option nat) (l : list nat) : bool
   end.
 Definition contig (l : list nat) : bool := contig_acc [] None l.
 
+Definition regions (ns : list node) : list nat := filter (is_region ns) (seq 0 (length ns)).
+
 Definition disciplined (ns : list node) : bool :=
-  forallb (fun p => contig (events ns p)) (seq 0 (length ns)).
+  forallb (fun p => contig (events ns p)) (regions ns).
 
 (** well-formed table: parents precede children, every dataflow parent got its Input and
     Output first, effectful nodes are plain operations inside dataflow parents *)
